@@ -71,6 +71,8 @@ Definition full_r (N : nat) (v : vec) : M2 :=
   end.
 (* a 3-vector (tvector<3>) *)
 Definition full_v (N : nat) (v : vec) : nat -> R := v.
+(* a plain 3x3 matrix stored row-major, the same meaning in every dimension *)
+Definition full_m (N : nat) (v : vec) : M2 := fun i j => v (3 * i + j)%nat.
 Definition full_A (N : nat) (v : vec) : M4 :=
   fun i j k l => if Nat.ltb (idx6 i j) (ssize N) && Nat.ltb (idx6 k l) (ssize N)
                  then v (idx6 i j * ssize N + idx6 k l)%nat * (iw i j * iw k l) else 0.
